@@ -407,9 +407,12 @@ theorem EndInv_step (s s' : Sys) (l : Label) (h : EndInv s) (hi : IdsInv s)
     · rename_i hpc
       have hne : s.pc ≠ .ended := by rw [hpc]; nofun
       split at hs
-      · split at hs <;> cases hs
-        · exact EndInv_actor s _ [_] h rfl rfl rfl hne nofun rfl rfl rfl rfl rfl (by intro m hm; rw [hpc] at hm; cases hm)
-        · exact EndInv_actor0 s _ h rfl rfl hne nofun rfl rfl rfl rfl rfl (by intro m hm; rw [hpc] at hm; cases hm)
+      · split at hs
+        · split at hs <;> cases hs
+          · exact EndInv_actor s _ [_, _] h rfl rfl rfl hne nofun rfl rfl rfl rfl rfl (by intro m hm; rw [hpc] at hm; cases hm)
+          · exact EndInv_actor s _ [_] h rfl rfl rfl hne nofun rfl rfl rfl rfl rfl (by intro m hm; rw [hpc] at hm; cases hm)
+        · cases hs
+          exact EndInv_actor0 s _ h rfl rfl hne nofun rfl rfl rfl rfl rfl (by intro m hm; rw [hpc] at hm; cases hm)
       · rename_i mid k rest heq
         cases hs
         refine ⟨?_, fun he => by simp at he, ?_, ?_, ?_, ?_⟩
@@ -428,21 +431,22 @@ theorem EndInv_step (s s' : Sys) (l : Label) (h : EndInv s) (hi : IdsInv s)
           · exact Or.inr (Or.inr hq)
         · intro o ho; simp only; rw [oids_grantFirst]; exact h.waitingHas o ho
       · rename_i o rest heq
-        cases hs
-        refine ⟨?_, fun he => by simp at he, ?_, ?_, ?_, ?_⟩
-        · simp only; constructor
-          · intro hc; exact absurd (h.closedIff.mp hc) hne
-          · intro he; cases he
-        · show (riFold (s.ev ++ [_])).2 = true; rw [ri_append, riRun_neutral _ _ rfl]; exact h.riOk
-        · intro m hm; show m ∈ (riFold (s.ev ++ [_])).1; rw [ri_append, riRun_neutral _ _ rfl]; exact h.sentEnded m hm
-        · intro m hm
-          rcases h.pendingWhere m hm with hq | hq | hq
-          · rw [heq] at hq
-            cases hq with
-            | tail _ hq => exact Or.inl hq
-          · rw [hpc] at hq; cases hq
-          · exact Or.inr (Or.inr hq)
-        · intro o' ho; simp only; rw [oids_grantFirst]; exact h.waitingHas o' ho
+        split at hs <;> cases hs
+        all_goals
+          refine ⟨?_, fun he => by simp at he, ?_, ?_, ?_, ?_⟩
+          · simp only; constructor
+            · intro hc; exact absurd (h.closedIff.mp hc) hne
+            · intro he; cases he
+          · show (riFold (s.ev ++ _)).2 = true; rw [ri_append, riRun_neutral _ _ rfl]; exact h.riOk
+          · intro m hm; show m ∈ (riFold (s.ev ++ _)).1; rw [ri_append, riRun_neutral _ _ rfl]; exact h.sentEnded m hm
+          · intro m hm
+            rcases h.pendingWhere m hm with hq | hq | hq
+            · rw [heq] at hq
+              cases hq with
+              | tail _ hq => exact Or.inl hq
+            · rw [hpc] at hq; cases hq
+            · exact Or.inr (Or.inr hq)
+          · intro o' ho; simp only; rw [oids_grantFirst]; exact h.waitingHas o' ho
     · cases hs
   | handlerDone =>
     simp only [step?] at hs
